@@ -124,3 +124,599 @@ pub fn c01(env: &Env) -> i32 {
         parts,
     )
 }
+
+// ---------------------------------------------------------------------------------------------
+// C02 (b) certificate uniqueness over histories
+
+fn c02_check(case: &SimCase, st: &mut Stats) -> Result<(), String> {
+    let run = run_case(case, Monitors { uniqueness: true, ..Default::default() });
+    record(st, &run.info);
+    let i = &run.info;
+    if i.max_committed >= 1 && (i.timeout_qc_formed && (i.equivocation_delivered || i.hidden_qc || i.reproposals_accepted > 0)) {
+        st.nontrivial(common::fingerprint(&(&case.weights, &case.byz, &case.actions)));
+    }
+    st.sample(|| sample(case, i));
+    run.result
+}
+
+pub fn c02(env: &Env) -> i32 {
+    if let Mode::Replay(path) = env.mode() {
+        let (part, case) = Env::read_replay(&path);
+        if part != "history" {
+            eprintln!("part {part} belongs to the rolesprop engine");
+            return 2;
+        }
+        return env.finish_replay(&path, common::replay_case::<SimCase>(case, c02_check));
+    }
+    let mut parts: Vec<PartReport> = vec![];
+    parts.extend(common::run_regress::<SimCase>(env, "history", c02_check));
+    parts.push(run_proptest(
+        env,
+        "history",
+        "simulator schedules with an active adversary (as C01/byzantine); monitor: certifiable(n,h) := correct weight that signed a commit vote for (n,h) within one view + all Byzantine weight >= n-f; at most one payload per block number is ever certifiable, no correct validator votes for another payload of that number in a later view, and every certificate found anywhere is for the certifiable payload. \
+         Non-trivial = a block was committed and the run contains a timeout certificate together with an accepted equivocation, a withheld certificate or an accepted re-proposal",
+        PartOpts { cases: env.tier.pick(320, 12_000), max_shrink_iters: 60, samples: 2 },
+        || Choices::strategy(400).prop_map(|mut ch| gen_case(&mut ch, &BYZ)),
+        c02_check,
+    ));
+    env.finish(
+        "exploration",
+        "history-level half of C02 on the simulator; the decision-function half is the rolesprop engine",
+        &["at most f weight is Byzantine"],
+        parts,
+    )
+}
+
+// ---------------------------------------------------------------------------------------------
+// C03 no vote equivocation across crashes: crash enumeration over every durable-write point
+
+#[derive(Debug, Clone, serde::Serialize, serde::Deserialize, Hash)]
+pub struct C03Case {
+    sim: SimCase,
+    victim: u16,
+}
+
+/// Runs `case.sim` with a crash injected into durable write `call` of the victim; after the crash the victim
+/// restarts and is offered everything the adversary has (including a second proposal for its views), then the
+/// schedule continues. Returns (result, victim had voted before the crash, was offered an old-view proposal).
+fn run_with_crash(case: &C03Case, point: Option<crate::engine::CrashPoint>) -> (Result<(), String>, u64, bool, bool) {
+    use crate::sim::{kind_of, view_of, Kind};
+    let mon = Monitors { equivocation: true, ..Default::default() };
+    det::run(|| async {
+        let mut info = RunInfo::default();
+        let mut w = match World::new(sim_cfg(&case.sim)).await {
+            Ok(w) => w,
+            Err(e) => return (Err(format!("harness: {e}")), 0, false, false),
+        };
+        let correct = w.correct();
+        let victim = correct[common::pick_index(case.victim, correct.len())];
+        if let Some(p) = point {
+            w.arm_crash(victim, p);
+        }
+        let mut result = Ok(());
+        let mut checked = 0;
+        let mut handled = point.is_none();
+        let (mut voted_before, mut offered_old) = (false, false);
+        for (k, a) in case.sim.actions.iter().enumerate() {
+            if let Err(e) = apply(&mut w, a, &mut info).await {
+                result = Err(format!("harness: {e}"));
+                break;
+            }
+            if !handled && !w.node(victim).is_up() && w.node(victim).engine.st.lock().unwrap().set_state_log.iter().any(|l| Some(l.0) == point.map(|p| p.call)) {
+                handled = true;
+                voted_before = w.pool.iter().any(|p| p.from == Some(victim) && !p.crafted && matches!(kind_of(&p.msg), Kind::Commit | Kind::Timeout));
+                let pre_view = w.steps.iter().rev().find(|s| s.node == victim).map(|s| s.after.view.0).unwrap_or(0);
+                if let Err(e) = w.restart(victim).await {
+                    result = Err(format!("harness: restart: {e}"));
+                    break;
+                }
+                let durable_view = w.node(victim).snapshot().map(|s| s.view.0).unwrap_or(0);
+                // adversarial suffix: a second proposal for the newest Byzantine-led view, then everything ever sent for views >= the durable view
+                let extra = w.equivocate();
+                let mut offer: Vec<usize> = (0..w.pool.len()).filter(|m| view_of(&w.pool[*m].msg) >= durable_view).collect();
+                offer.extend(extra);
+                // proposals first: they are what could make it vote twice
+                offer.sort_by_key(|m| (kind_of(&w.pool[*m].msg) != Kind::Proposal, *m));
+                for m in offer {
+                    if kind_of(&w.pool[m].msg) == Kind::Proposal && view_of(&w.pool[m].msg) <= pre_view {
+                        offered_old = true;
+                    }
+                    if w.ready(victim) {
+                        w.deliver(victim, m, false).await;
+                    }
+                }
+                w.progress().await;
+                w.reap().await;
+            }
+            if let Err(e) = check_monitors(&w, &mon, checked) {
+                result = Err(format!("after action {k} {a:?} (crash point {point:?}): {e}"));
+                break;
+            }
+            checked = w.steps.len();
+        }
+        let writes = w.node(victim).engine.st.lock().unwrap().set_state_calls;
+        w.shutdown().await;
+        (result, writes, voted_before, offered_old)
+    })
+}
+
+fn c03_check(case: &C03Case, st: &mut Stats) -> Result<(), String> {
+    let (base, writes, _, _) = run_with_crash(case, None);
+    base?;
+    let writes = writes.min(40);
+    st.max("max_durable_write_points", writes);
+    let mut nontrivial = 0;
+    for call in 0..writes {
+        for applied in [false, true] {
+            st.evaluations += 1;
+            let (r, _, voted, offered) = run_with_crash(case, Some(crate::engine::CrashPoint { call, applied }));
+            r?;
+            st.class(if applied { "crash_after_write_applied" } else { "crash_with_write_lost" });
+            if voted && offered {
+                nontrivial += 1;
+                st.nontrivial(common::fingerprint(&(&case.sim.weights, &case.sim.byz, &case.sim.actions, case.victim, call, applied)));
+            }
+        }
+    }
+    st.count("crash_points_with_prior_votes_and_old_view_offer", nontrivial);
+    st.sample(|| serde_json::json!({"schedule": sample(&case.sim, &RunInfo::default()), "victim": case.victim, "durable_write_points": writes}));
+    Ok(())
+}
+
+const EQUIV: Profile = Profile { max_n: 6, byzantine: true, crashes: false, floods: false, absurd: false, variants: false, len: 14 };
+const EQUIV_SMALL: Profile = Profile { max_n: 4, byzantine: false, crashes: false, floods: false, absurd: false, variants: false, len: 16 };
+
+pub fn c03(env: &Env) -> i32 {
+    if let Mode::Replay(path) = env.mode() {
+        let (_, case) = Env::read_replay(&path);
+        return env.finish_replay(&path, common::replay_case::<C03Case>(case, c03_check));
+    }
+    let mut parts: Vec<PartReport> = vec![];
+    parts.extend(common::run_regress::<C03Case>(env, "crash_points", c03_check));
+    for (name, profile, cases) in [("crash_points", EQUIV, env.tier.pick(32u64, 600)), ("crash_points_small", EQUIV_SMALL, env.tier.pick(64, 1200))] {
+        parts.push(run_proptest(
+            env,
+            name,
+            "a base schedule (equivocating Byzantine leader, replays, timers, partial deliveries; 4-19 actions) is executed once to count the durable state writes W of a chosen correct victim; then for EVERY write k < W and both outcomes {write lost, write applied} the schedule is re-run with a crash inside write k, \
+             the victim restarts from its durable state and is offered a second proposal for the newest Byzantine-led view plus every message ever sent for views >= its durable view (proposals first), after which the schedule continues; \
+             oracle over all messages signed with a correct key, in emission order: no two different commit votes in one view, no commit vote for a view at or below an earlier timeout vote, vote views never decrease; and after every step the durable state already records every vote sent in it (persist-then-send). \
+             Each re-run counts as one evaluation. Non-trivial = the victim had voted before the crash and was afterwards offered a proposal for a view <= its pre-crash view",
+            PartOpts { cases, max_shrink_iters: 20, samples: 2 },
+            move || (Choices::strategy(300), any::<u16>()).prop_map(move |(mut ch, victim)| C03Case { sim: gen_case(&mut ch, &profile), victim }),
+            c03_check,
+        ));
+    }
+    env.finish(
+        "fault_enumeration",
+        "every durable-write point x {lost, applied} of each generated schedule; the schedules themselves are sampled",
+        &["a crash loses exactly what is not in durable state; messages already handed to the network count as sent"],
+        parts,
+    )
+}
+
+// ---------------------------------------------------------------------------------------------
+// C05 view changes justified / monotone / self-justifying (model-free invariants)
+
+fn c05_check(case: &SimCase, st: &mut Stats) -> Result<(), String> {
+    let run = run_case(case, Monitors { step_invariants: true, ..Default::default() });
+    record(st, &run.info);
+    let i = &run.info;
+    st.count("deep_accepted_state_changes", i.accepted_deep as u64);
+    st.count("deep_rejections", i.rejected_deep as u64);
+    for k in &i.kinds_matrix {
+        st.class(&format!("matrix:{k}"));
+    }
+    if i.accepted_deep + i.rejected_deep > 0 {
+        st.nontrivial(common::fingerprint(&(&case.weights, &case.byz, &case.actions)));
+    }
+    st.sample(|| sample(case, i));
+    run.result
+}
+
+const MUTATED: Profile = Profile { max_n: 7, byzantine: true, crashes: true, floods: false, absurd: false, variants: true, len: 40 };
+
+pub fn c05(env: &Env) -> i32 {
+    if let Mode::Replay(path) = env.mode() {
+        let (_, case) = Env::read_replay(&path);
+        return env.finish_replay(&path, common::replay_case::<SimCase>(case, c05_check));
+    }
+    let mut parts: Vec<PartReport> = vec![];
+    parts.extend(common::run_regress::<SimCase>(env, "invariants", c05_check));
+    parts.push(run_proptest(
+        env,
+        "invariants",
+        "simulator schedules (as C01) plus an input mutator: any pool message may be delivered as a variant (re-signed by a Byzantine validator = wrong author/leader, signed by a non-member, foreign signature, other genesis, other epoch, view shifted by -2..+3), stale and future-view replays come from the pool itself; \
+         oracle after every replica step: view and both highest certificates never decrease; every view change a->b is justified by the input of that step (a proposal / new-view whose justification verifies and has view b, or a vote completing a quorum for view b-1 among what this incarnation was given); adopted certificates verify in isolation; \
+         a rejected input changes nothing and emits nothing; every emitted new-view / proposal verifies in isolation and carries the higher of the two held certificates (commit on tie); proposals come only from the view's leader with payload presence matching the justification; timeout votes carry exactly view, high vote and high certificate; commit votes equal the recorded high vote; a timer always yields a timeout vote (and a new-view beyond view 0). \
+         Non-trivial = an accepted state-changing step or a rejection at view >= 3; the (phase x kind x relative view x outcome) matrix is in the class histogram",
+        PartOpts { cases: env.tier.pick(320, 12_000), max_shrink_iters: 60, samples: 2 },
+        || Choices::strategy(400).prop_map(|mut ch| gen_case(&mut ch, &MUTATED)),
+        c05_check,
+    ));
+    parts.push(run_proptest(
+        env,
+        "invariants_small",
+        "same oracle on committees of 1-5 correct validators with crashes, restarts and partitions",
+        PartOpts { cases: env.tier.pick(320, 12_000), max_shrink_iters: 60, samples: 1 },
+        || Choices::strategy(400).prop_map(|mut ch| gen_case(&mut ch, &Profile { variants: true, ..CRASHY })),
+        c05_check,
+    ));
+    env.finish(
+        "exploration",
+        "model-free history invariants on the real handlers; see DESIGN.md for the status of the reference-model oracle",
+        &["BLS unforgeability", "certificate verification itself is judged by C04"],
+        parts,
+    )
+}
+
+// ---------------------------------------------------------------------------------------------
+// C16 (b) bounded bookkeeping under floods, and C10 layer 6 (absurd but validly signed messages)
+
+fn c16b_check(case: &SimCase, st: &mut Stats) -> Result<(), String> {
+    let run = run_case(case, Monitors { caches: true, ..Default::default() });
+    record(st, &run.info);
+    st.max("max_flood_messages", run.info.flood_msgs as u64);
+    if run.info.flood_msgs >= 50 {
+        st.nontrivial(common::fingerprint(&(&case.weights, &case.byz, &case.actions)));
+    }
+    st.sample(|| sample(case, &run.info));
+    run.result
+}
+
+pub const FLOOD: Profile = Profile { max_n: 7, byzantine: true, crashes: false, floods: true, absurd: false, variants: false, len: 30 };
+pub const ABSURD: Profile = Profile { max_n: 7, byzantine: true, crashes: false, floods: true, absurd: true, variants: true, len: 30 };
+
+pub fn flood_part(env: &Env) -> PartReport {
+    // floods are made frequent: a third of all actions
+    run_proptest(
+        env,
+        "replica_caches",
+        "simulator schedules in which Byzantine validators flood correct replicas with validly signed commit / timeout votes for 3-60 distinct future views per burst (starting at view 0, 5 or 1000), interleaved with normal operation; oracle after every step, n = committee size: both latest-vote maps <= n entries, partial certificates kept for <= n views, <= n^2 accumulators / timeout messages in total. Non-trivial = >= 50 flood messages delivered",
+        PartOpts { cases: env.tier.pick(200, 8_000), max_shrink_iters: 40, samples: 2 },
+        || {
+            Choices::strategy(400).prop_map(|mut ch| {
+                let mut c = gen_case(&mut ch, &FLOOD);
+                let extra: Vec<crate::act::Action> = (0..c.actions.len() / 2)
+                    .map(|_| crate::act::Action::Flood { byz: ch.below(4) as u8, timeouts: ch.bool(), from_view: ch.pick(&[0u32, 5, 1000]), count: ch.pick(&[20u16, 60]), to: u16::MAX })
+                    .collect();
+                for (k, a) in extra.into_iter().enumerate() {
+                    let at = (2 * k + 1).min(c.actions.len());
+                    c.actions.insert(at, a);
+                }
+                c
+            })
+        },
+        c16b_check,
+    )
+}
+
+fn absurd_check(case: &SimCase, st: &mut Stats) -> Result<(), String> {
+    // only the driver's own panic / internal-error detection is the oracle here
+    let run = run_case(case, Monitors::default());
+    record(st, &run.info);
+    if run.info.absurd_msgs > 0 {
+        st.nontrivial(common::fingerprint(&(&case.weights, &case.byz, &case.actions)));
+    }
+    st.sample(|| sample(case, &run.info));
+    run.result
+}
+
+pub fn c10_handlers(env: &Env) -> i32 {
+    if let Mode::Replay(path) = env.mode() {
+        let (part, case) = Env::read_replay(&path);
+        if part != "handlers" {
+            eprintln!("part {part} belongs to the netprop engine");
+            return 2;
+        }
+        return env.finish_replay(&path, common::replay_case::<SimCase>(case, absurd_check));
+    }
+    let mut parts: Vec<PartReport> = vec![];
+    parts.extend(common::run_regress::<SimCase>(env, "handlers", absurd_check));
+    parts.push(run_proptest(
+        env,
+        "handlers",
+        "L6: real replica handlers fed validly signed but absurd messages from a Byzantine validator (view / block number u64::MAX, empty and 100000-bit signer maps, a timeout certificate with 1000 empty groups, certificates for other views), floods and message variants, interleaved with normal operation; oracle: no handler panics or returns an internal error. Non-trivial = absurd messages were delivered",
+        PartOpts { cases: env.tier.pick(160, 6_000), max_shrink_iters: 40, samples: 2 },
+        || {
+            Choices::strategy(400).prop_map(|mut ch| {
+                let mut c = gen_case(&mut ch, &ABSURD);
+                for k in 0..3 {
+                    let at = (3 * k + 2).min(c.actions.len());
+                    c.actions.insert(at, crate::act::Action::Absurd { kind: ch.below(6) as u8, to: u16::MAX });
+                }
+                c
+            })
+        },
+        absurd_check,
+    ));
+    env.finish("exploration", "consensus-handler layer of C10 (merged with the netprop layers)", &["a caught panic equals a process abort"], parts)
+}
+
+// ---------------------------------------------------------------------------------------------
+// C06 progress after the network heals
+
+/// The fair synchronous suffix: a fixed rule, not generated. Returns Err on a violation.
+async fn fair_suffix(w: &mut World, info: &mut RunInfo, st: &mut Stats) -> Result<(), String> {
+    use crate::act::{Action, KIND_ALL};
+    // heal: every correct node is up and persistence is immediate
+    for i in w.correct() {
+        if !w.node(i).is_up() {
+            w.restart(i).await?;
+        }
+        w.node(i).engine.st.lock().unwrap().defer = false;
+        w.node(i).engine.persist(usize::MAX);
+    }
+    w.progress().await;
+    let heights = |w: &World| -> Vec<u64> { w.correct().iter().map(|i| w.node(*i).engine.durable_next()).collect() };
+    let views = |w: &World| -> Vec<u64> { w.correct().iter().filter_map(|i| w.node(*i).snapshot().map(|s| s.view.0)).collect() };
+    let h0 = heights(w);
+    let target = *h0.iter().max().unwrap();
+    let v0 = *views(w).iter().max().unwrap_or(&0);
+    let distinct_views = views(w).iter().collect::<std::collections::BTreeSet<_>>().len();
+    let distinct_heights = h0.iter().collect::<std::collections::BTreeSet<_>>().len();
+    if distinct_views >= 2 || distinct_heights >= 2 {
+        st.class("nodes_diverged_at_heal");
+    }
+    let mut correct_leader_views = 0u64;
+    let mut seen_view = v0;
+    let mut idle_rounds = 0;
+    for round in 0..200 {
+        let before = (w.steps.len(), w.pool.len(), heights(w));
+        // reliable delivery among correct nodes + block fetching
+        apply(w, &Action::Flush { mask: u16::MAX, kinds: KIND_ALL, limit: 10_000, rounds: 1 }, info).await?;
+        let best = w.correct().into_iter().max_by_key(|i| w.node(*i).engine.durable_next()).unwrap();
+        for i in w.correct() {
+            if i != best {
+                w.sync(best, i).await;
+            }
+        }
+        if let Some(e) = w.driver_errors.first() {
+            return Err(e.clone());
+        }
+        let hs = heights(w);
+        if hs.iter().all(|h| *h > target) {
+            st.max("max_rounds_to_progress", round + 1);
+            st.max("max_correct_leader_views_to_progress", correct_leader_views);
+            return Ok(());
+        }
+        let vmax = *views(w).iter().max().unwrap_or(&0);
+        while seen_view < vmax {
+            seen_view += 1;
+            if !w.cfg.byz[w.leader(seen_view)] {
+                correct_leader_views += 1;
+            }
+        }
+        if correct_leader_views > 5 {
+            return Err(format!(
+                "no progress: after healing at heights {h0:?} (views up to {v0}) {correct_leader_views} views with a correct leader have started (now view {vmax}) and the heights are {hs:?}"
+            ));
+        }
+        let after = (w.steps.len(), w.pool.len(), hs);
+        if after.1 == before.1 && after.2 == before.2 {
+            // nothing new to deliver: time passes and the view timers fire
+            idle_rounds += 1;
+            if idle_rounds > 60 {
+                return Err(format!("stuck: 60 timeout rounds change nothing (heights {:?}, views {:?})", after.2, views(w)));
+            }
+            apply(w, &Action::Timeout { mask: u16::MAX }, info).await?;
+        }
+    }
+    Err(format!("no progress within 200 rounds after healing (heights {:?} -> {:?}, views {:?})", h0, heights(w), views(w)))
+}
+
+fn c06_check(case: &SimCase, st: &mut Stats) -> Result<(), String> {
+    let r = det::run(|| async {
+        let mut info = RunInfo::default();
+        let mut w = match World::new(sim_cfg(case)).await {
+            Ok(w) => w,
+            Err(e) => return (Err(format!("harness: {e}")), info),
+        };
+        let mut result = Ok(());
+        for a in &case.actions {
+            if let Err(e) = apply(&mut w, a, &mut info).await {
+                result = Err(format!("harness: {e}"));
+                break;
+            }
+        }
+        if result.is_ok() {
+            if let Some(e) = w.driver_errors.first() {
+                result = Err(e.clone());
+            }
+        }
+        let restarted_at_heal = w.correct().iter().any(|i| !w.node(*i).is_up());
+        if restarted_at_heal {
+            st.class("node_down_at_heal");
+        }
+        if result.is_ok() {
+            result = fair_suffix(&mut w, &mut info, st).await;
+        }
+        summarize(&w, &mut info);
+        w.shutdown().await;
+        (result, info)
+    });
+    record(st, &r.1);
+    if st.classes.contains_key("nodes_diverged_at_heal") || st.classes.contains_key("node_down_at_heal") {
+        st.nontrivial(common::fingerprint(&(&case.weights, &case.byz, &case.actions)));
+    }
+    st.sample(|| sample(case, &r.1));
+    r.0
+}
+
+pub fn c06(env: &Env) -> i32 {
+    if let Mode::Replay(path) = env.mode() {
+        let (_, case) = Env::read_replay(&path);
+        return env.finish_replay(&path, common::replay_case::<SimCase>(case, c06_check));
+    }
+    let mut parts: Vec<PartReport> = vec![];
+    parts.extend(common::run_regress::<SimCase>(env, "heal", c06_check));
+    for (name, profile, cases) in [("heal", BYZ, env.tier.pick(200u64, 4_000)), ("heal_small", CRASHY, env.tier.pick(200, 4_000))] {
+        parts.push(run_proptest(
+            env,
+            name,
+            "an adversarial prefix (any simulator actions: partitions, drops, replays, crashes, deferred persistence, Byzantine tactics; <= f Byzantine weight) followed by a fair synchronous suffix executed by a fixed rule: every correct node is (re)started, then rounds of {leaders propose, every pending message is delivered among correct nodes, lagging nodes fetch blocks from the most advanced one; if a round delivers nothing new, all view timers fire}; Byzantine validators stay silent; \
+             oracle: every correct node's durable height exceeds the maximum height at heal time before more than 5 views with a correct leader have started, and the system is never stuck (60 timer rounds that change nothing). Non-trivial = at heal time the correct nodes are in different views / heights or one is down",
+            PartOpts { cases, max_shrink_iters: 40, samples: 2 },
+            move || Choices::strategy(400).prop_map(move |mut ch| gen_case(&mut ch, &profile)),
+            c06_check,
+        ));
+    }
+    env.finish(
+        "exploration",
+        "bounded liveness on a fair suffix after generated adversarial prefixes; 'eventually' under unbounded asynchrony is out of reach of testing",
+        &["the suffix models reliable delivery among correct nodes, block fetching and firing view timers", "the bound of 5 correct-leader views (observed maximum 2) was calibrated on the unchanged tree (observed maximum plus margin)"],
+        parts,
+    )
+}
+
+// ---------------------------------------------------------------------------------------------
+// C16 pending input bounded, freshest kept: (a) the real input channel against a list model, (b) replica caches
+
+#[derive(Debug, Clone, serde::Serialize, serde::Deserialize, Hash)]
+pub enum ChanOp {
+    /// Send message: signer, kind 0..4, view, valid signature?
+    Send(u8, u8, u8, bool),
+    Recv,
+}
+
+#[derive(Debug, Clone, serde::Serialize, serde::Deserialize, Hash)]
+pub struct ChanCase {
+    ops: Vec<ChanOp>,
+}
+
+fn chan_msg(signer: u8, kind: u8, view: u8, valid: bool) -> crate::sim::Msg {
+    use zksync_consensus_roles::validator::{v2, ConsensusMsg};
+    let c = gen::CommitteeSpec::uniform(5).build();
+    let header = v2::BlockHeader { number: zksync_consensus_roles::validator::BlockNumber(1), payload: zksync_consensus_roles::validator::Payload(vec![view]).hash() };
+    let qc = |v: u64| v2::CommitQC { message: v2::ReplicaCommit { view: c.view(v), proposal: header }, signers: v2::Signers(bit_vec::BitVec::from_elem(5, true)), signature: Default::default() };
+    let inner = match kind % 4 {
+        0 => v2::ChonkyMsg::ReplicaCommit(v2::ReplicaCommit { view: c.view(view as u64), proposal: header }),
+        1 => v2::ChonkyMsg::ReplicaTimeout(v2::ReplicaTimeout { view: c.view(view as u64), high_vote: None, high_qc: None }),
+        // the view of a new-view / proposal is its certificate's view + 1
+        2 => v2::ChonkyMsg::ReplicaNewView(v2::ReplicaNewView { justification: v2::ProposalJustification::Commit(qc(view as u64)) }),
+        _ => v2::ChonkyMsg::LeaderProposal(v2::LeaderProposal { proposal_payload: None, justification: v2::ProposalJustification::Commit(qc(view as u64)) }),
+    };
+    let mut m = c.keys[signer as usize % 5].sign_msg(ConsensusMsg::V2(inner));
+    if !valid {
+        m.sig = c.keys[(signer as usize + 1) % 5].sign_msg(ConsensusMsg::V2(v2::ChonkyMsg::ReplicaCommit(v2::ReplicaCommit { view: c.view(99), proposal: header }))).sig;
+    }
+    m
+}
+
+fn c16a_check(case: &ChanCase, st: &mut Stats) -> Result<(), String> {
+    det::run(|| async {
+        let life = det::Life::new();
+        let (send, mut recv) = zksync_consensus_bft::create_input_channel();
+        // model: pending messages in arrival order: (signer, kind, view, id)
+        let mut model: Vec<(u8, u8, u8, usize)> = vec![];
+        let (mut discard_old, mut discard_new, mut tie) = (false, false, false);
+        let mut acks = vec![];
+        for (i, op) in case.ops.iter().enumerate() {
+            match op {
+                ChanOp::Send(s, k, v, valid) => {
+                    let (s, k) = (*s % 5, *k % 4);
+                    let (ack, ack_recv) = zksync_concurrency::oneshot::channel();
+                    acks.push(ack_recv);
+                    send.send(zksync_consensus_bft::FromNetworkMessage { msg: chan_msg(s, k, *v, *valid), ack });
+                    if *valid {
+                        match model.iter().position(|m| m.0 == s && m.1 == k) {
+                            Some(p) if model[p].2 < *v => {
+                                model.remove(p);
+                                model.push((s, k, *v, i));
+                                discard_old = true;
+                            }
+                            Some(p) => {
+                                if model[p].2 == *v {
+                                    tie = true;
+                                }
+                                discard_new = true;
+                            }
+                            None => model.push((s, k, *v, i)),
+                        }
+                    }
+                }
+                ChanOp::Recv => {
+                    let mut fut = Box::pin(recv.recv(&life.ctx));
+                    let got = det::until_quiescent(&mut fut).await;
+                    drop(fut);
+                    match (got, model.first().copied()) {
+                        (None, None) => {}
+                        (Some(Ok(m)), Some(want)) => {
+                            let expect = chan_msg(want.0, want.1, want.2, true);
+                            if m.msg != expect {
+                                return Err(format!("op {i}: recv returned {:?} view {} from signer key {:?}, the model's head is signer {} kind {} view {}", crate::sim::kind_of(&m.msg), crate::sim::view_of(&m.msg), m.msg.key, want.0, want.1, want.2));
+                            }
+                            model.remove(0);
+                        }
+                        (None, Some(want)) => return Err(format!("op {i}: recv blocks although the message of signer {} kind {} view {} is pending", want.0, want.1, want.2)),
+                        (Some(Ok(m)), None) => return Err(format!("op {i}: recv returned a {:?} message although nothing valid is pending", crate::sim::kind_of(&m.msg))),
+                        (Some(Err(_)), _) => return Err("recv cancelled".into()),
+                    }
+                }
+            }
+            // at most one pending message per (sender, kind): implied by the model equality, asserted on the model
+            let mut keys: Vec<(u8, u8)> = model.iter().map(|m| (m.0, m.1)).collect();
+            keys.sort();
+            keys.dedup();
+            if keys.len() != model.len() {
+                return Err("harness: model holds two messages for one (sender, kind)".into());
+            }
+        }
+        // drain: everything the model still holds must come out, in order, and nothing else
+        for want in model.clone() {
+            let mut fut = Box::pin(recv.recv(&life.ctx));
+            match det::until_quiescent(&mut fut).await {
+                Some(Ok(m)) if m.msg == chan_msg(want.0, want.1, want.2, true) => {}
+                other => return Err(format!("final drain: expected signer {} kind {} view {}, got {:?}", want.0, want.1, want.2, other.map(|r| r.map(|m| crate::sim::view_of(&m.msg))))),
+            }
+        }
+        let mut fut = Box::pin(recv.recv(&life.ctx));
+        if det::until_quiescent(&mut fut).await.is_some() {
+            return Err("final drain: the channel holds more messages than the model".into());
+        }
+        drop(fut);
+        if discard_old && discard_new && tie {
+            st.class("discard_old+discard_new+tie");
+            st.nontrivial(common::fingerprint(case));
+        }
+        st.sample(|| serde_json::to_value(case).unwrap());
+        life.end(Vec::<tokio::task::JoinHandle<()>>::new()).await;
+        Ok(())
+    })
+}
+
+pub fn c16(env: &Env) -> i32 {
+    if let Mode::Replay(path) = env.mode() {
+        let (part, case) = Env::read_replay(&path);
+        let r = match part.as_str() {
+            "input_channel" => common::replay_case::<ChanCase>(case, c16a_check),
+            "replica_caches" => common::replay_case::<SimCase>(case, c16b_check),
+            p => Err(format!("unknown part {p}")),
+        };
+        return env.finish_replay(&path, r);
+    }
+    let mut parts: Vec<PartReport> = vec![];
+    parts.extend(common::run_regress::<ChanCase>(env, "input_channel", c16a_check));
+    parts.extend(common::run_regress::<SimCase>(env, "replica_caches", c16b_check));
+    parts.push(run_proptest(
+        env,
+        "input_channel",
+        "the real create_input_channel() (signature filter + selection function): sequences of 1-60 operations {send(signer of 5, kind of 4, view 0-6 with ties, valid or invalid signature), recv}; oracle: a list model (invalid dropped; same sender+kind pending: strictly newer replaces the older one and queues at the back, otherwise the new one is dropped); every recv equals the model's head, recv blocks iff the model is empty, final drain equals the model. \
+         Non-trivial = the sequence contains a discard-old, a discard-new and an equal-view tie",
+        PartOpts { cases: env.tier.pick(6_000, 200_000), max_shrink_iters: 2000, samples: 2 },
+        || {
+            proptest::collection::vec(
+                prop_oneof![3 => (0u8..5, 0u8..4, 0u8..7, proptest::bool::weighted(0.85)).prop_map(|(s, k, v, ok)| ChanOp::Send(s, k, v, ok)), 1 => Just(ChanOp::Recv)],
+                1..60,
+            )
+            .prop_map(|ops| ChanCase { ops })
+        },
+        c16a_check,
+    ));
+    parts.push(flood_part(env));
+    env.finish(
+        "exploration",
+        "model-based test of the input channel and flood schedules on real replicas",
+        &["the bound n^2 on inner accumulators is deliberately loose (a stale vote can survive inside the accumulator of a view another validator keeps alive); the flood sends far more than n^2 messages"],
+        parts,
+    )
+}
